@@ -122,6 +122,7 @@ type Explorer struct {
 	EndReasons  map[string]int
 	Truncated   bool
 	InitWarnings map[string]int
+	ForkSites    map[string]int
 }
 
 func NewExplorer(ld *Loaded, entry *ssa.Function, cfg *RunConfig) *Explorer {
@@ -411,6 +412,14 @@ func (vm *VM) fork(conds []*Term, exhaustive bool) int {
 		P.decisions = append(P.decisions, -1)
 		P.pos++
 		return -1
+	}
+	if len(feas) > 1 && vm.cfg.Verbose {
+		vm.ex.mu.Lock()
+		if vm.ex.ForkSites == nil {
+			vm.ex.ForkSites = map[string]int{}
+		}
+		vm.ex.ForkSites[vm.where()] += len(feas) - 1
+		vm.ex.mu.Unlock()
 	}
 	base := append([]int32(nil), P.decisions...)
 	for _, k := range feas[1:] {
